@@ -62,11 +62,11 @@ type ConnInfo struct {
 type EndKind int
 
 const (
-	EndNone   EndKind = iota
-	EndFIN            // close the connection (FIN)
-	EndRST            // SetLinger(0) + Close
-	EndPoison         // keep the connection open, never write to it again
-	EndHalfClose      // shutdown(SHUT_WR): the peer sees EOF, its writes still succeed; full close 500 ms later
+	EndNone      EndKind = iota
+	EndFIN               // close the connection (FIN)
+	EndRST               // SetLinger(0) + Close
+	EndPoison            // keep the connection open, never write to it again
+	EndHalfClose         // shutdown(SHUT_WR): the peer sees EOF, its writes still succeed; full close 500 ms later
 )
 
 type ExtraKind int
